@@ -17,8 +17,8 @@ RULE = ('strata over chain lists on lattices L<=Lmax with <=mmax chains, alphabe
         '12 chains with duplicates / cancelling repeats / shared sub-words / zero coefficients.  The MPO stage runs '
         'whenever every operator id occurs with a single charge (always for zeroq and random).  '
         'non-trivial = not a single all-identity chain; distinct = distinct (L, chain list)')
-BOUNDS = {'quick': 'exhaustive strata L<=3, <=3 chains (cap 1500 per stratum, singles complete); random L<=8, <=12 chains (4000)',
-          'thorough': 'exhaustive strata L<=4, <=4 chains (cap 6000 per stratum, singles complete); random L<=8, <=12 chains (40000)'}
+BOUNDS = {'quick': 'strata L<=3, <=3 chains (cap 1500 per stratum, singles and all L=1 strata complete); random L<=8, <=12 chains (4000); 2500 graphs for the MPO stage',
+          'thorough': 'strata L<=4, <=4 chains (cap 10000 per stratum, singles and all L=1 strata complete); random L<=8, <=12 chains (60000); 60000 graphs for the MPO stage'}
 EXHAUSTIVE = {'quick': False, 'thorough': False}
 
 OID_ID = 0
@@ -44,8 +44,8 @@ def cases(tier, seed):
     rng = np.random.default_rng(seed)
     quick = tier == 'quick'
     Lmax, mmax = (3, 3) if quick else (4, 4)
-    cap = 1500 if quick else 6000
-    nrandom = 4000 if quick else 40000
+    cap = 1500 if quick else 10000
+    nrandom = 4000 if quick else 60000
 
     def mk(kind, L, chains):
         return dict(kind=kind, L=L, chains=chains, seed=int(rng.integers(1 << 31)))
@@ -88,7 +88,7 @@ def cases(tier, seed):
         chains = hg.rand_chain_list(sub, L, 12 if r % 3 else 4)
         yield mk('random', L, chains)
     # MPO stage on arbitrary consistent graphs (parallel edges, multi-operator edges, arbitrary ids, dangling nodes)
-    for r in range(2500 if quick else 40000):
+    for r in range(2500 if quick else 60000):
         length = int(rng.integers(1, 5))
         gd = hg.gd_typed(hg.rand_layered_graph(rng, length, 3, dangling=(r % 10 == 0)))
         nmap = {n[0]: int(x) for n, x in zip(gd['nodes'], rng.choice(range(-3, 3 * len(gd['nodes'])), size=len(gd['nodes']), replace=False))}
@@ -152,6 +152,8 @@ def check_mpo(fail, qual, graph, gp, L, charges, rng, oid_identity=OID_ID):
     # operator sums of the edges between them
     blocks = {}
     for e in graph.edges.values():
+        if e.nids[0] not in lev:
+            continue        # edge leaving a node that is unreachable from terminal 0: not part of the MPO
         (l0, i), (l1, j) = nid_map[e.nids[0]], nid_map[e.nids[1]]
         blk = blocks.setdefault((l0, i, j), np.zeros((d, d), dtype=complex))
         for o, c in e.opics:
